@@ -121,12 +121,17 @@ def decorate(tk, rnd, attr_pool):
             out.append(dt)
     stack = []
 
+    use_e = wy == b'&e;'
+
     def attrs():
         n = rnd.choice([0, 0, 1, 1, 2])
         s = b''
         names = rnd.sample(ATTR_NAMES, n)
         for nm in names:
-            s += rnd.choice([b' ', b'  ', b'\n ', b'\t']) + nm + rnd.choice([b'=', b'=', b' = ', b'=\n']) + rnd.choice(attr_pool)
+            v = rnd.choice(attr_pool)
+            if use_e and rnd.random() < 0.3:          # reference to the entity declared in the internal subset
+                v = v[:1] + rnd.choice([b'&e;', b'x&e;', b'&e; &e;']) + v[1:]
+            s += rnd.choice([b' ', b'  ', b'\n ', b'\t']) + nm + rnd.choice([b'=', b'=', b' = ', b'=\n']) + v
         return s
 
     for t in tk:
@@ -179,8 +184,9 @@ def has_cdata_end(doc):
 
 RULE = ('a case is (KeepWhitespace, document bytes). Documents: every complete behaviour of the design models '
         'XmlMachine (all well-formed token streams up to the length bound over its vocabulary of tags, text kinds, '
-        'CDATA kinds, comment, PI, DOCTYPE; both KeepWhitespace values) and XmlAttr (all attribute values up to the '
-        'length bound over literal characters and references, both quote kinds); TLC -simulate walks of XmlMachine '
+        'CDATA kinds, comment, PI, DOCTYPE; both KeepWhitespace values), XmlAttr (all attribute values up to the '
+        'length bound over literal characters and references, both quote kinds) and XmlText (all texts up to the length '
+        'bound over literal characters, blanks and decimal/hex/named references, in <a>TEXT</a>, both KeepWhitespace values); TLC -simulate walks of XmlMachine '
         'to 14 tokens; the same token streams re-rendered with other names, attributes, references, PIs, comments, '
         'DOCTYPE/internal subsets; inputs of xml_test.go, tests/xml/corpus, _benchmarks/*.xml. Documents the '
         'independent reader does not accept as well-formed are outside the quantification and are not judged. '
@@ -197,7 +203,7 @@ def generate(ctx):
     quick = ctx.quick()
     cases = []
     seen = set()
-    stats = dict(mc_docs=0, mc_known_skipped=0, attr_docs=0, attr_known_skipped=0, sim_docs=0, sim_known_skipped=0,
+    stats = dict(mc_docs=0, mc_known_skipped=0, attr_docs=0, attr_known_skipped=0, text_docs=0, text_known_skipped=0, sim_docs=0, sim_known_skipped=0,
                  decorated=0, decorated_known_skipped=0, repo_tests=0, corpus=0, pinned=0)
 
     def add(keep, data, src, pred=None):
@@ -205,7 +211,9 @@ def generate(ctx):
         if k in seen:
             return False
         seen.add(k)
-        cases.append(dict(id=len(cases), keep=bool(keep), src=src, pred=None if pred is None else bytes(pred), **{'in': bytes(data)}))
+        # entry point: generated documents rotate over Minifier.Minify / xml.Minify / registry M.Bytes; fixed inputs use the first
+        path = len(cases) % 3 if src in ('mc', 'attr', 'text', 'sim', 'decorated') else 0
+        cases.append(dict(id=len(cases), keep=bool(keep), path=path, src=src, pred=None if pred is None else bytes(pred), **{'in': bytes(data)}))
         return True
 
     pool_tk = []
@@ -267,6 +275,9 @@ def generate(ctx):
     def job_attr():
         return mc('XmlAttr', 'XmlAttr_quick.cfg' if quick else 'XmlAttr_thorough.cfg', 3 if quick else 8, '2g' if quick else '4g')
 
+    def job_text():
+        return mc('XmlText', 'XmlText_quick.cfg' if quick else 'XmlText_thorough.cfg', 3 if quick else 8, '2g' if quick else '4g')
+
     def job_sim(w):
         rs = vlib.tlc(ctx, 'XmlMachine', 'XmlMachine_sim.cfg', workers=1, simulate='num=%d' % (nsim // nproc), depth=40,
                       seed=ctx.seed * 100 + w, timeout=1500)
@@ -276,22 +287,24 @@ def generate(ctx):
 
     t0 = time.time()
     vlib._speccopy(ctx)        # the scratch copy of spec/ must exist before TLC jobs start in parallel
-    with ThreadPoolExecutor(max_workers=2 + nproc) as ex:
+    with ThreadPoolExecutor(max_workers=3 + nproc) as ex:
         fm = ex.submit(job_machine)
         fa = ex.submit(job_attr)
+        ft = ex.submit(job_text)
         fs = [ex.submit(job_sim, w) for w in range(nproc)]
         r = fm.result()
         ra = fa.result()
+        rt = ft.result()
         outs = [f.result() for f in fs]
-    vlib.log('C06: TLC on XmlMachine, XmlAttr, simulation %.0fs' % (time.time() - t0))
+    vlib.log('C06: TLC on XmlMachine, XmlAttr, XmlText, simulation %.0fs' % (time.time() - t0))
     # per-action coverage of the design models: an action that never fired would make the model vacuous there
     actions = {}
-    for out in (r['out'], ra['out']):
-        for m in re.finditer(r'^<(\w+) line \d+, col \d+ to line \d+, col \d+ of module (XmlMachine|XmlAttr)>: (\d+):(\d+)', out, re.M):
+    for out in (r['out'], ra['out'], rt['out']):
+        for m in re.finditer(r'^<(\w+) line \d+, col \d+ to line \d+, col \d+ of module (XmlMachine|XmlAttr|XmlText)>: (\d+):(\d+)', out, re.M):
             actions['%s.%s' % (m.group(2), m.group(1))] = int(m.group(4))
     dead = [a for a, n in actions.items() if n == 0]
     expected = ['XmlMachine.' + a for a in ('Gen', 'Start', 'StepText', 'StepCDATAEmpty', 'StepCDATA', 'StepComment', 'StepVerbatim',
-                                           'StepStart', 'StepVoid', 'StepEnd', 'StepEOF')] + ['XmlAttr.Gen', 'XmlAttr.Rewrite']
+                                           'StepStart', 'StepVoid', 'StepEnd', 'StepEOF')] + ['XmlAttr.Gen', 'XmlAttr.Rewrite', 'XmlText.Gen', 'XmlText.Rewrite']
     if dead or any(a not in actions for a in expected):
         raise vlib.Infra('design model action without coverage: %r / %r' % (dead, [a for a in expected if a not in actions]))
     ctx.coverage['design_action_coverage'] = actions
@@ -317,6 +330,16 @@ def generate(ctx):
     if not attr_pool:
         raise vlib.Infra('XmlAttr emitted no behaviours')
     attr_pool = sorted(attr_pool)
+    ctx.coverage['design_states_XmlText'] = rt['distinct']
+    for e in emitted(rt['out']):
+        if e['known']:
+            stats['text_known_skipped'] += 1
+            continue
+        if not e['holds']:
+            raise vlib.Infra('design counterexample outside the known constructs: %r' % bytes(e['in']))
+        if add(e['keep'], e['in'], 'text', e['out']):
+            stats['text_docs'] += 1
+    rt['out'] = ''
     for o in outs:
         take(o, 'sim', 'sim_known_skipped')
     del outs
@@ -366,7 +389,7 @@ def run_cases(ctx, exe, cases, tag):
     mout = ctx.path('run', tag + '-meta.ndjson')
     with open(cin, 'w') as f:
         for i, c in enumerate(cases):
-            f.write(json.dumps({'id': i, 'keep': c['keep'], 'in': list(c['in'])}, separators=(',', ':')) + '\n')
+            f.write(json.dumps({'id': i, 'keep': c['keep'], 'path': c.get('path', 0), 'in': list(c['in'])}, separators=(',', ':')) + '\n')
     vlib.run([exe, cin, tout, mout], timeout=3000)
     metas = vlib.read_ndjson(mout)
     lines = open(tout).read().splitlines()
@@ -433,7 +456,7 @@ def run(ctx):
         part = cases[lo:lo + CHUNK]
         metas, lines = run_cases(ctx, exe, part, 'main%d' % lo)
         for c, e in zip(part, metas):
-            if c['src'] in ('mc', 'attr', 'sim', 'decorated') and not e['inwf']:
+            if c['src'] in ('mc', 'attr', 'text', 'sim', 'decorated') and not e['inwf']:
                 raise vlib.Infra('generated document rejected by the reader (%s): %r' % (e['inwhy'], c['in']))
             if not e['inwf']:
                 skipped += 1
@@ -476,7 +499,7 @@ def run(ctx):
                 raise vlib.Infra('rejection does not reproduce in isolation: %r' % c['in'][:200])
             e = metas2[k]
             ctx.report(ident(c), describe(c, e, why2[k]),
-                       replay_obj=dict(out=bytes(e['out']).decode('latin1'), clauses=why2[k], outwhy=e['outwhy']))
+                       replay_obj=dict(out=bytes(e['out']).decode('latin1'), clauses=why2[k], outwhy=e['outwhy'], path=c.get('path', 0)))
         reproduced = len(why2)
         ctx.coverage['rejections_reproduced'] = reproduced
     vlib.log('C06: re-runs %.0fs' % (time.time() - t0))
@@ -497,10 +520,11 @@ def run(ctx):
         design_drift_samples=drift_samples,
         exhaustive=True,
         exhaustive_bound='XmlMachine: all well-formed token streams with <= %d tokens over %d token kinds x KeepWhitespace%s; '
-                         'XmlAttr: all values with <= %d items over %d items x 2 quote kinds%s'
-                         % ((5, 18, '', 3, 22, '') if ctx.quick() else
+                         'XmlAttr: all values with <= %d items over %d items x 2 quote kinds%s; '
+                         'XmlText: all texts with <= %d items over %d items x KeepWhitespace%s'
+                         % ((5, 18, '', 3, 22, '', 3, 22, '') if ctx.quick() else
                             (6, 22, ' (model-checked completely; of the 6-token streams a fixed 1/4 is also executed on the real code)',
-                             4, 28, ' (same)')),
+                             4, 28, ' (same, 1/8)', 4, 30, ' (same, 1/12)')),
     ))
     ctx.assumptions += [
         'encoding/xml (Strict) + the raw start-tag scanner of harness/cmd/c06 define what a document says; the two are cross-checked against each other on every start tag (disagreement = exit 2)',
@@ -512,7 +536,7 @@ def run(ctx):
 def replay(ctx, obj):
     exe = vlib.build_harness(ctx, 'c06')
     c = obj['case']
-    case = dict(id=0, keep=c['keep'], src='replay', pred=None, **{'in': c['in'].encode('latin1')})
+    case = dict(id=0, keep=c['keep'], path=(obj.get('detail') or {}).get('path', 0), src='replay', pred=None, **{'in': c['in'].encode('latin1')})
     metas, lines = run_cases(ctx, exe, [case], 'replay')
     e = metas[0]
     print('in : %r' % c['in'])
